@@ -50,6 +50,9 @@ func main() {
 	c.Assume("callers keep the StreamWriter protocol Prepare-Write*-Commit and do not interleave Add between Prepare and Commit (lindb's own callers do)")
 	c.Assume("a rejected (not ascending) key is one that is ignored: lindb's builder logs it and returns a nil error by design; the oracle requires that nothing else changes, not that an error comes back")
 	c.Assume("tables stay below 4 GiB (the format stores 32-bit offsets)")
+	c.Assume("lindb's convention 'empty value = nothing to store': kv.Flusher.Commit abandons a flush whose values are ALL empty (modelled as nothing flushed, " +
+		"the version must not change), and a compaction may drop a key whose merged value is empty (compactFlusher.Add skips it; the stream writer path keeps it as empty). " +
+		"Empty values inside a flush that also has value bytes are stored and checked exactly; the table builder/reader themselves are checked with all-empty tables in the T cases")
 
 	nT := c.Pick(2000, 200_000)
 	nM := c.Pick(500, 50_000)
@@ -69,7 +72,7 @@ func main() {
 	// store cases are the slowest per case: start them first
 	split("S", nS, c.Pick(12, 200))
 	split("SR", c.Pick(6, 60), c.Pick(6, 20))
-	split("T", nT, c.Pick(80, 1000))
+	split("T", nT, c.Pick(80, 500))
 	split("M", nM, c.Pick(50, 1250))
 	split("VR", nVR, c.Pick(20, 300))
 	split("V", nV, c.Pick(150, 1000))
